@@ -18,8 +18,8 @@ MODELLED = ("bigint.c: uintLength intLength uintBit intBit xintStoreI xintStore 
             "(not: printing to FILE, bintFrPlacevS/ToPlacevS, xintNeeds, float conversions, allocation sizes)")
 _T = ["negate_val", "abs_val", "eq_iff", "lt_iff", "gt_iff", "plus_val", "minus_val", "times_val", "new_small",
       "toSInt_val", "small_val", "bit_val", "length_val", "shift_val", "divide_spec", "divide_recompose", "mod_val",
-      "gcd_val", "sipower_val", "bipower_val", "powermod_val_partial", "powermod_statement_refuted",
-      "shiftRem_statement_refuted", "toString_repr"]
+      "gcd_val", "sipower_val", "bipower_val", "powermod_val",
+      "shiftRem_statement_refuted", "toString_repr", "frString_toString", "radixScan_val", "scan_val"]
 THEOREMS = [("AldorVerif.Props.C11", "AldorVerif.BigInt." + t) for t in _T]
 
 B = 1 << 32
@@ -451,6 +451,44 @@ def ref_scan(s, radix_ok):
     return (-v if neg else v), j
 
 # ------------------------------------------------------------------ run
+def run_impl_bounded(exe, lines, chunk=4000, timeout=30, max_faults=12):
+    """like common.run_impl_lines, but in chunks with a short timeout, so that an implementation that
+    hangs or crashes on many requests costs minutes, not hours: after `max_faults` faults the remaining
+    requests are answered SKIPPED (the faults found so far are reported)."""
+    outs = []
+    faults = 0
+    i = 0
+    n = len(lines)
+    while i < n:
+        part = lines[i:i + chunk]
+        rc, out, err = common.run([exe], inp="\n".join(part) + "\n", timeout=timeout)
+        if isinstance(out, bytes):      # a timed out run hands back what it captured as bytes
+            out = out.decode("utf-8", "replace")
+        if isinstance(err, bytes):
+            err = err.decode("utf-8", "replace")
+        got = out.split("\n")
+        if got and got[-1] == "":
+            got.pop()
+        if rc == 0 and len(got) == len(part):
+            outs.extend(got)
+            i += len(part)
+            continue
+        k = min(len(got), len(part))
+        if not out.endswith("\n") and k > 0:
+            k -= 1
+        outs.extend(got[:k])
+        i += k
+        if i >= n:
+            break
+        tail = (err or "").strip().split("\n")[-1][:200] if err else ""
+        outs.append("FAULT(%s)%s" % (rc, (" " + tail) if tail else ""))
+        i += 1
+        faults += 1
+        if faults >= max_faults:
+            outs.extend(["SKIPPED"] * (n - len(outs)))
+            break
+    return outs
+
 def run_part(ctx, build):
     exe = build.cc_driver("bigint_drv", os.path.join(VERIF, "harness", "bigint_drv.c"))
     rng = ctx.rng
@@ -461,7 +499,7 @@ def run_part(ctx, build):
             lines += [l.strip() for l in open(os.path.join(corp, f)) if l.strip() and not l.startswith("#")]
     ncorpus = len(lines)
     lines += gen_requests(rng, ctx.tier)
-    c = common.run_impl_lines(exe, lines, timeout=3000)
+    c = run_impl_bounded(exe, lines, timeout=30 if ctx.tier == "quick" else 120)
     m, tags = common.split_model(common.run_model("bigint", "\n".join(lines) + "\n"))
     assert len(m) == len(lines), (len(m), len(lines))
     stats = {"lines": len(lines), "corpus": ncorpus, "mismatch": 0, "faults": 0, "property_checked": 0,
@@ -473,7 +511,10 @@ def run_part(ctx, build):
         mo = m[k]
         stats["ops"][toks[0]] = stats["ops"].get(toks[0], 0) + 1
         seen.add(co)
-        if co.startswith("FAULT") or co in ("MISSING", "SKIPPED"):
+        if co == "SKIPPED":
+            stats["skipped"] = stats.get("skipped", 0) + 1
+            continue
+        if co.startswith("FAULT") or co == "MISSING":
             stats["faults"] += 1
             ctx.finding("bigint|fault|" + toks[0], "bigint code faults (%s) on: %s" % (co, ln[:300]),
                         {"kind": "impl-fault", "driver": "harness/bigint_drv.c", "line": ln, "impl": co, "model": mo})
@@ -511,9 +552,6 @@ def run_part(ctx, build):
 def known_signature(toks, ans):
     """deviations from exactness that model and implementation share (the theorems about them are `_partial`
     and carry a `_statement_refuted` twin)"""
-    if toks[0] == "powmod" and toks[2] == "0" and toks[3] in ("1", "-1"):
-        return ("bigint|powmod-exponent0-modulus1",
-                "fiBIntPowerMod(a, 0, c) returns 1 before looking at c; for c = 1 or -1 the exact value is 0")
     if toks[0] == "shrem":
         return ("bigint|shiftrem-mask",
                 "bintShiftRem builds its mask as `(1 << n) - 1` in type int: immediate operands lose bits for n >= 32, "
